@@ -1,6 +1,7 @@
 package props
 
 import (
+	"go/token"
 	"fmt"
 	"go/types"
 	"strings"
@@ -61,6 +62,86 @@ func checkC02(c *core.Ctx) {
 	r2 := c.Rule("R2.2", "T", "the input bytes are never written by decode code")
 	r3 := c.Rule("R2.3", "T", "read-only accessors write nothing reachable from their receiver or arguments")
 	r4 := c.Rule("R2.4", "T", "no ambient nondeterminism on decode / read-only paths")
+	r6 := c.Rule("R2.6", "T", "memory taken from a sync.Pool on the decode path is not handed back while a decoded value still refers to it")
+	{
+		roots := p.Roots()
+		nGet := 0
+		for _, fn := range core.SortedFns(roots.DecReach) {
+			if fn.Pkg == nil || len(fn.Blocks) == 0 || strings.HasSuffix(p.Pos(fn.Pos()), "_test.go") {
+				continue
+			}
+			core.Instrs(fn, func(ins ssa.Instruction) {
+				call, ok := ins.(*ssa.Call)
+				if !ok || core.StaticName(&call.Call) != "(*sync.Pool).Get" {
+					return
+				}
+				nGet++
+				key := fmt.Sprintf("%s/pool-get#%d", core.FnKey(fn), nGet)
+				// the pooled object (through the type assertion)
+				var objs []ssa.Value
+				for _, r := range *call.Referrers() {
+					if ta, ok := r.(*ssa.TypeAssert); ok {
+						objs = append(objs, ta)
+						for _, r2 := range *ta.Referrers() {
+							if e, ok := r2.(*ssa.Extract); ok && e.Index == 0 {
+								objs = append(objs, e)
+							}
+						}
+					}
+				}
+				isObj := func(v ssa.Value) bool {
+					for _, o := range objs {
+						if o == v {
+							return true
+						}
+					}
+					return false
+				}
+				// is it put back in this function?
+				var put ssa.Instruction
+				core.Instrs(fn, func(i2 ssa.Instruction) {
+					cc := core.CallCommonOf(i2)
+					if cc == nil || core.StaticName(cc) != "(*sync.Pool).Put" || len(cc.Args) < 2 {
+						return
+					}
+					if mi, ok := cc.Args[1].(*ssa.MakeInterface); ok && isObj(mi.X) {
+						put = i2
+					}
+				})
+				if put == nil {
+					r6.OK(key, p.InstrPos(ins), "not handed back in this function")
+					return
+				}
+				// contents of the pooled object stored into some other object
+				var leak ssa.Instruction
+				core.Instrs(fn, func(i2 ssa.Instruction) {
+					st, ok := i2.(*ssa.Store)
+					if !ok || leak != nil {
+						return
+					}
+					v := st.Val
+					for d := 0; d < 4; d++ {
+						if sl, ok := v.(*ssa.Slice); ok {
+							v = sl.X
+							continue
+						}
+						break
+					}
+					ld, ok := v.(*ssa.UnOp)
+					if !ok || ld.Op != token.MUL || !isObj(ld.X) {
+						return
+					}
+					if fa, ok := st.Addr.(*ssa.FieldAddr); ok && !isObj(fa.X) {
+						leak = i2
+					}
+				})
+				r6.Check(leak == nil, key, p.InstrPos(ins), "the pooled object's contents do not escape into another object before it is put back", "the contents of the pooled object are stored into a decoded value at "+p.InstrPosOr(leak)+" and the object is put back into the pool at "+p.InstrPos(put)+": slices of the decoded value alias memory the next decode overwrites, so what an earlier packet reports changes after later packets are decoded")
+			})
+		}
+		if nGet == 0 {
+			r6.OK("decode/pool-gets", "", "no sync.Pool.Get on the decode path other than NewPacket's data block (R4.2)")
+		}
+	}
 	r5 := c.Rule("R2.5", "T", "no store through the DecodeOptions() pointer")
 
 	reach := map[*ssa.Function]bool{}
